@@ -100,6 +100,9 @@ class Gen:
             return
         self.lines.append("/-- %s : `%s` -/\ndef %s %s : Bool := decide %s" % (comment, expr.replace("-/", "- /"), name, params, lean))
 
+    def string(self, name, text, comment):
+        self.lines.append("/-- %s -/\ndef %s : String :=\n  \"%s\"" % (comment, name, text.replace("\\", "\\\\").replace('"', "'")))
+
     def str_list(self, name, items, comment):
         body = ",\n   ".join('"%s"' % s.replace('"', "'") for s in items)
         self.lines.append("/-- %s -/\ndef %s : List String :=\n  [%s]" % (comment, name, body))
@@ -270,6 +273,22 @@ def rust_part(g):
     occ = re.findall(r"if\s+([^{]*?is_underfull\(\))\s*\{", b)
     checks_empty = len(occ) == 2 and all("is_empty" not in o for o in occ)
     g.lines.append("/-- D3: the occupancy test of `check_node_invariants` is not skipped for empty nodes : %s -/\ndef rust_validator_checks_empty : Bool := %s" % (str([re.sub(r"\s+", " ", o) for o in occ]).replace("-/", "- /"), "true" if checks_empty else "false"))
+
+    # the checked / bulk wrappers (C10, C14): their bodies as normalised source text (the model in
+    # BPT/Rust/Checked.lean is a line-by-line transcription of exactly this text)
+    lib = strip_comments(read("rust/src/lib.rs"))
+    getops = strip_comments(read("rust/src/get_operations.rs"))
+    for (src, fn, label) in ((lib, "try_insert", "lib.rs"), (lib, "try_remove", "lib.rs"), (lib, "batch_insert", "lib.rs"),
+                             (getops, "get_item", "get_operations.rs"), (getops, "try_get", "get_operations.rs"),
+                             (getops, "get_many", "get_operations.rs"), (getops, "contains_key", "get_operations.rs"),
+                             (getops, "get_or_default", "get_operations.rs"),
+                             (dele, "remove_item", "delete_operations.rs"),
+                             (va, "validate", "validation.rs"), (va, "validate_for_operation", "validation.rs")):
+        b = rust_fn(src, fn)
+        if b is None:
+            g.missing("rust_src_" + fn, "fn %s not found in %s" % (fn, label))
+        else:
+            g.string("rust_src_" + fn, re.sub(r"\s+", " ", b).strip(), "body of `%s` (%s), comments stripped, whitespace normalised" % (fn, label))
 
     # inventories over the library sources (bins, benches, tests excluded)
     lib_files = sorted(f for f in os.listdir(os.path.join(REPO, "rust/src")) if f.endswith(".rs"))
